@@ -5,9 +5,7 @@ package actor
 import (
 	"context"
 	"fmt"
-	"runtime"
 	"sync"
-	"sync/atomic"
 	"testing"
 	"time"
 )
@@ -196,133 +194,7 @@ func TestVerifC01RestartWitness(t *testing.T) {
 	out.HandledOnce = ok
 }
 
-// ---------------------------------------------------------------- (c) real-goroutine stress
-type c01StressCfg struct {
-	Mailbox   string
-	Senders   int
-	PerSender int
-	Budget    int
-	Procs     int
-	Gate      bool // wrap the mailbox in the gate and yield at its preemption points
-	SelfTell  bool
-}
-type c01StressOut struct {
-	Cfg       c01StressCfg `json:"cfg"`
-	Accepted  int          `json:"accepted"`
-	Rejected  int          `json:"rejected"`
-	Handled   int64        `json:"handled"`
-	Overlaps  int64        `json:"overlaps"`
-	MaxConc   int32        `json:"max_concurrent"`
-	DeqRaces  int64        `json:"concurrent_dequeues"`
-	Dup       int          `json:"duplicates"`
-	Lost      int          `json:"lost"`
-	Stalled   bool         `json:"stalled"`
-	FinalSt   string       `json:"final_state"`
-	OverlapAt []string     `json:"overlap_at"`
-	GateHits  []int64      `json:"gate_hits"`
-	Err       string       `json:"err"`
-}
-
-func c01RunStress(cfg c01StressCfg, seed uint64) (out c01StressOut) {
-	out.Cfg = cfg
-	ctx := context.Background()
-	old := runtime.GOMAXPROCS(cfg.Procs)
-	defer runtime.GOMAXPROCS(old)
-	sys, err := vdNewSystem("c01stress", WithThroughputBudget(cfg.Budget))
-	if err != nil {
-		out.Err = err.Error()
-		return
-	}
-	defer sys.Stop(ctx)
-	rec := newVdRecorder()
-	var mb Mailbox = vdMailboxByName(cfg.Mailbox)
-	var gate *vdGateMailbox
-	if cfg.Gate {
-		gate = newVdGateMailbox(mb)
-		var ctr atomic.Uint64
-		gate.setHook(func(p vdGatePoint, _ bool) {
-			// deterministic-per-seed yield noise at the protocol's preemption points
-			x := (ctr.Add(1)*0x9E3779B97F4A7C15 + seed) >> 59
-			switch {
-			case x < 8:
-				runtime.Gosched()
-			case x < 10:
-				for i := 0; i < 4; i++ {
-					runtime.Gosched()
-				}
-			case x == 10 && (p == gpDeqAfterNil || p == gpEmptyBefore || p == gpEnqAfter):
-				time.Sleep(20 * time.Microsecond)
-			}
-		})
-		mb = gate
-	}
-	pid, err := sys.Spawn(ctx, "a", &vdActor{rec: rec, yieldIn: true}, WithLongLived(), WithMailbox(mb))
-	if err != nil {
-		out.Err = err.Error()
-		return
-	}
-	var wg sync.WaitGroup
-	var accepted, rejected atomic.Int64
-	ids := make([][]uint64, cfg.Senders)
-	for s := 0; s < cfg.Senders; s++ {
-		wg.Add(1)
-		go func(s int) {
-			defer wg.Done()
-			rng := newVerifRNG(seed*1000 + uint64(s))
-			for k := 0; k < cfg.PerSender; k++ {
-				m := &vdMsg{ID: uint64(s)<<32 | uint64(k+1), Sender: s, Seq: k, Spin: rng.intn(3)}
-				if err := Tell(ctx, pid, m); err != nil {
-					rejected.Add(1)
-				} else {
-					accepted.Add(1)
-					ids[s] = append(ids[s], m.ID)
-				}
-				switch rng.intn(8) {
-				case 0:
-					runtime.Gosched()
-				case 1:
-					// let the mailbox drain so the Idle transition is exercised
-					for i := 0; i < 50 && pid.schedState.Load() != dispatchIdle; i++ {
-						runtime.Gosched()
-					}
-				}
-			}
-		}(s)
-	}
-	wg.Wait()
-	out.Accepted, out.Rejected = int(accepted.Load()), int(rejected.Load())
-	ok := vdWaitUntil(20*time.Second, func() bool { return rec.handledN.Load() >= accepted.Load() })
-	// quiescence: nothing in flight any more
-	time.Sleep(2 * time.Millisecond)
-	out.Stalled = !ok
-	out.Handled = rec.handledN.Load()
-	out.Overlaps = rec.overlaps.Load()
-	out.MaxConc = rec.maxConc.Load()
-	out.FinalSt = c01StateName(pid.schedState.Load())
-	counts, _ := rec.snapshot()
-	for s := range ids {
-		for _, id := range ids[s] {
-			switch c := counts[id]; {
-			case c == 0:
-				out.Lost++
-			case c > 1:
-				out.Dup += c - 1
-			}
-		}
-	}
-	rec.mu.Lock()
-	out.OverlapAt = append([]string(nil), rec.overlapAt...)
-	rec.mu.Unlock()
-	if gate != nil {
-		gate.setHook(nil)
-		out.DeqRaces = gate.deqRaces.Load()
-		for i := range gate.hits {
-			out.GateHits = append(out.GateHits, gate.hits[i].Load())
-		}
-	}
-	return out
-}
-
+// ---------------------------------------------------------------- (c) real-goroutine stress (vdRunStress in the dispatch library)
 func TestVerifC01Stress(t *testing.T) {
 	w := newVerifWriter(t, "c01_stress_out.jsonl")
 	defer w.close()
@@ -337,12 +209,12 @@ func TestVerifC01Stress(t *testing.T) {
 		for _, mbn := range mailboxes {
 			for gi, gate := range []bool{true, false} {
 				rng := newVerifRNG(seed + uint64(n)*7919)
-				cfg := c01StressCfg{Mailbox: mbn, Senders: 2 + rng.intn(5), PerSender: 120, Budget: budgets[(n+gi)%len(budgets)],
+				cfg := vdStressCfg{Mailbox: mbn, Senders: 2 + rng.intn(5), PerSender: 120, Budget: budgets[(n+gi)%len(budgets)],
 					Procs: procs[n%len(procs)], Gate: gate}
 				if thorough {
 					cfg.PerSender = 600
 				}
-				w.put(c01RunStress(cfg, seed+uint64(n)))
+				w.put(vdRunStress(cfg, seed+uint64(n)))
 				n++
 			}
 		}
